@@ -22,6 +22,7 @@ structure PipeWorld where
   routes : Side.SR.Table := []
   learned : List (Bytes × Listener) := []
   proxies : Array PipeProxy := #[]
+  failing : List Bytes := []          -- environment: backends whose Send fails at the moment (`pipe bfail`)
 
 def kvArgs (a : List String) : List (String × String) :=
   a.filterMap fun t =>
@@ -103,6 +104,12 @@ def execPipe (w : PipeWorld) (op : String) (a : List String) : PipeWorld × Stri
       ({ w with proxies := w.proxies.set! i { p with st := st' } }, "ok")
     | _, _ => (w, "bad-op")
   | "end" => (w, "ok")
+  | "bfail" =>
+    match a.reverse with
+    | addr :: on :: _ =>
+      let x := unhex addr
+      ({ w with failing := if on == "1" then x :: w.failing else w.failing.filter (· != x) }, "ok")
+    | _ => (w, "bad-op")
   | "tick" => (w, "ok")            -- time passes for the sweep of the transport table: entries live an hour, nothing expires
   | "branches" => (w, "skip")
   | "rawd" => (w, "skip")          -- hostile-input stream: oracles only (no panic, bounded allocation)
@@ -122,6 +129,20 @@ def execPipe (w : PipeWorld) (op : String) (a : List String) : PipeWorld × Stri
         let cfg := mkCfg w p
         let st0 := { p.st with learned := w.learned }
         let (st1, outs) := step cfg st0 ev
+        -- environment faults: a send to a failing backend produces nothing, and (sendToBackend binds the transaction
+        -- only after a successful send) leaves no new binding to it
+        let dead (a : Bytes) : Bool := w.failing.contains a
+        let outs := outs.filter fun o => match o with
+          | .backend a _ => !dead a
+          | _ => true
+        let newDead (e : PinEntry) : Bool :=
+          !p.st.pins.contains e && (match e.backend with
+            | .member a => dead a
+            | _ => false)
+        let bad := st1.pins.filter newDead
+        -- (a binding that the failed send would have replaced is still there)
+        let st1 : St := { st1 with pins := st1.pins.filter (fun e => !newDead e) ++
+                                            p.st.pins.filter (fun e => bad.any (fun b => b.key == e.key)) }
         let before := transList p.st.trans
         let after := transList st1.trans
         let added := after.filter (fun e => !before.contains e)
